@@ -928,8 +928,12 @@ def gen_inventory(all_facts):
                     ads.setdefault(dp, adt_shape(a))
             import whomay
             wm = out.setdefault("__whomay__", {})
-            for eff, fns in whomay.table(facts).items():
+            tb_ = whomay.table(facts)
+            for eff, fns in tb_.items():
                 wm[eff] = sorted(set(wm.get(eff, [])) | set(fns))
+            wc = out.setdefault("__whomay_callers__", {})
+            for f_, cs_ in whomay.callers_closure(facts, set(x for fns in tb_.values() for x in fns)).items():
+                wc[f_] = sorted(set(wc.get(f_, [])) | set(cs_))
             cs = out.setdefault("__consts__", {})
             for dp in crate.consts:
                 cs[dp] = 1
